@@ -18,11 +18,16 @@ units_linear_pow2, resting on Lemmas/RadiiF64.lean: rnd64_err, rnd64_idem, rnd64
 General theorems quantify over ANY periodic table `T`, ANY radius table `t`, ANY unit-factor map
 `conv`; `shipped_*` / table theorems are kernel evaluations over the tables generated from `/repo`.
 
-What is a PARAMETER, not modelled: the unit factor itself (`constants.conversion_factor`, pint — C03).
+In THIS file the unit factor (`constants.conversion_factor`, pint — C03) is a PARAMETER: the unit clauses
+are stated for every factor (`value_is_factor_times_native`, `default_value`).
 -- FULL (for the unit clauses): "default = tabulated Å value × the context's Å→bohr factor" with the
--- factor *derived* from the context's CODATA bohr radius needs C03's model of pint's conversion;
--- here it is stated for every factor (`value_is_factor_times_native`, `default_value`) and the
--- concrete factors are taken from the implementation in the correspondence.
+-- factor *derived* from the context's CODATA bohr radius through C03's model of the conversion.
+-- CLOSED in Props/C17Factor.lean (+ C17FactorC02.lean, C17FactorText.lean, C17ToUnits.lean):
+-- `default_is_bohr_full`, `shipped_default_over_bohr2angstroms_2014`, `native_unit_exact_full`,
+-- `units_linear_full`, … derive the exact factor from C03's SI model over the regenerated CODATA table and
+-- use its correctly rounded double.  What remains a per-run CHECKED PARAMETER is pint's float evaluation of
+-- the factor (the implementation's double against the exact rational, tolerance 2^-50 relative;
+-- consequence proved in `impl_factor_value_accuracy`).
 -/
 namespace QcelVerif.Radii
 open QcelVerif QcelVerif.PStr QcelVerif.PT
